@@ -35,6 +35,8 @@ func exerciseReads(pj *simdjson.ParsedJson, maxPos int, deep bool) (pan string) 
 		f()
 	}
 	it := pj.Iter()
+	var reusedEls *simdjson.Elements
+	var seenNames []string
 	for k := 0; k <= maxPos; k++ {
 		cur := it
 		call("Type", func() { _ = cur.Type() })
@@ -77,6 +79,20 @@ func exerciseReads(pj *simdjson.ParsedJson, maxPos int, deep bool) (pan string) 
 				}
 				o7 := *o
 				o7.Parse(nil)
+				// a destination filled from the objects visited before, then every name seen so far
+				// looked up in it (an index left over from another object must not survive)
+				o7b := *o
+				if els, err := o7b.Parse(reusedEls); err == nil && els != nil {
+					reusedEls = els
+					for _, n := range seenNames {
+						els.Lookup(n)
+					}
+					for _, e := range els.Elements {
+						if len(seenNames) < 64 {
+							seenNames = append(seenNames, e.Name)
+						}
+					}
+				}
 				if deep {
 					o8 := *o
 					o8.Map(nil)
